@@ -26,7 +26,9 @@ RULE = ("money part: amounts in currencies of all minor-unit classes x valid rat
         "Money/X^2 or Money*X/Y with several units per currency (per x, per 1000 x, per x/8), target unit declared, only "
         "the base-unit target declared, or missing; quantities without money. Oracle: stored amount x reported rate on "
         "Fractions, rounded once to the target currency's fraction (independent ISO parse); for compound units the exact "
-        "product and a unit with the currency replaced. Non-trivial = product off the target grid, or compound case; "
+        "product and a unit with the currency replaced; per compound case the same rate object is applied, applied in the "
+        "opposite direction, applied again, and once more after a matching target unit was declared late; a quarter of "
+        "the universes use unit symbols with two div-signs. Non-trivial = product off the target grid, or compound case; "
         "distinct by digest")
 FLOORS = {"money/offgrid": (0.3, "money/matching")}
 
